@@ -387,13 +387,32 @@ package mocker
 //@   ensures same_builder: result == w && w.curMatch == old(w.curMatch)
 //@   panics_only_if values_rejected: true
 //@   ensures_on_panic nothing_registered: w.matches == old(w.matches) && w.defaultReturns == old(w.defaultReturns)
-//@ trusted func (w *When) When
-//@   assigns w.curMatch
-//@   may_panic
+// When.When only sets the pending condition; rejected arguments leave it as it was
+//@ func (w *When) When
+//@   props C04 C13
+//@   requires receiver: w != nil
+//@   assigns w.curMatch, varval
+//@   ensures pending_condition_set: w.curMatch != nil && result == w
+//@   panics_only_if arguments_rejected: true
+//@   ensures_on_panic pending_condition_unchanged: w.curMatch == old(w.curMatch)
+// When.AndReturn: one more result for the pending condition (or, without one, for the default: same as Return)
+//@ func (w *When) AndReturn
+//@   props C05 C04 C13
+//@   requires receiver: w != nil && 0 <= len(w.matches) && len(w.matches) < 0x10000 && len(value) < 0x10000
+//@   requires type: w.funcTyp != nil && rt_kind(w.funcTyp) == reflect.Func
+//@   assigns w.matches, w.defaultReturns, anyfield(BaseMatcher, results), varval, w.matches[len(w.matches) : cap(w.matches)]
+//@   ensures pending_condition_extended_not_reregistered: old(w.curMatch) != nil ==> w.matches == old(w.matches) && w.defaultReturns == old(w.defaultReturns)
+//@   ensures otherwise_conditions_untouched: old(w.curMatch) == nil ==> w.matches == old(w.matches)
+//@   ensures same_builder: result == w && w.curMatch == old(w.curMatch)
+//@   panics_only_if values_rejected: true
+//@   ensures_on_panic nothing_registered: w.matches == old(w.matches) && w.defaultReturns == old(w.defaultReturns)
+
+// When.Returns walks the values and calls Return / AndReturn (both under contract); its own loop is not verified (the
+// inner value lists are reached through a type assertion on []interface{}, whose lengths the contract language
+// cannot bound): TRUSTED frame
 //@ trusted func (w *When) Returns
 //@   assigns w.matches, w.defaultReturns, anyfield(BaseMatcher, results)
 //@   may_panic
-
 //@ func (m *DefMocker) Apply
 //@   props C12 C01
 //@   requires receiver: m != nil && m.baseMocker != nil
